@@ -140,6 +140,18 @@ func (store *ModuleStore) NewModule(ctx Context, impl *ModuleImpl) (*Module, err
 		Globals:    impl.Globals.Copy(),
 		Context:    ctx,
 	}
+	// A dict or a list among the implementation's globals (os.environ)
+	// would otherwise be one object shared by the modules of all
+	// contexts: what a program of one context stores in it would
+	// show up in the others
+	for k, v := range m.Globals {
+		switch x := v.(type) {
+		case StringDict:
+			m.Globals[k] = x.Copy()
+		case *List:
+			m.Globals[k] = NewListFromItems(x.Items)
+		}
+	}
 	// Insert the methods into the module dictionary
 	// Copy each method an insert each "live" with a ptr back to the module (which can also lead us to the host Context)
 	for _, method := range impl.Methods {
